@@ -172,16 +172,21 @@ class get_expr_end_visitor(NodeVisitor):
         # type: (AST) -> None
         pass
 
+    def advance(self, node):
+        # type: (AST) -> None
+        # nodes are not always visited in source order: f(k=1, *args)
+        self.last_loc = max(self.last_loc, (node.lineno, node.col_offset + 1))
+
     def visit_Constant(self, node):
         # type: (Constant) -> None
-        self.last_loc = node.lineno, node.col_offset + 1
+        self.advance(node)
 
     def __getattr__(self, name):
         # type: (str) -> t.Callable[[AST], None]
         def inner(node):
             # type: (AST) -> None
             try:
-                self.last_loc = node.lineno, node.col_offset + 1
+                self.advance(node)
             except AttributeError:
                 pass
             self.generic_visit(node)
